@@ -165,6 +165,8 @@ fn default_budget(prop: &str, tier: &str) -> u64 {
     // steps per shard (16 shards): quick ~ 10-20 s, thorough ~ 30x
     let quick = match prop {
         "C08" => 30000,
+        // the rarest antecedents (under-margined AND every other premise of the statement) need the most histories
+        "C07" => 40000,
         "C13" => 20000,
         _ => 25000,
     };
